@@ -48,6 +48,9 @@ CONFIGS = [
     # the peer is CONFIGURED with upper-case letters in its name (DiameterIdentity is case-insensitive)
     {"name": "auth4/configured-name-mixed-case", "apps": [{"app_id": 4, "auth": True, "peers": [0]}],
      "peers": 1, "timers": {"cer": 4, "cea": 4, "wakeup": 2}, "ptimers": {}, "configured_names": ["Peer1.EXAMPLE"]},
+    # the peers are default peers of their realm (add_peer(..., is_default=True))
+    {"name": "auth4/default-peers", "apps": [{"app_id": 4, "auth": True, "peers": [0]}],
+     "peers": 2, "timers": {"cer": 4, "cea": 4, "wakeup": 2}, "ptimers": {}, "default_peers": True},
 ]
 SYMS_IN = ["CER_known", "CER_known_case", "CER_unknown", "CER_nocommon", "CER_relay", "CEA_2001", "CEA_3xxx", "CEA_5xxx",
            "DWR", "DWA", "DPR", "DPA", "REQ", "ANS", "ADV1", "ADVT"]
@@ -61,6 +64,8 @@ def world_cfg(c, direction, seed=0, slow_connect=False):
     for i in range(c["peers"]):
         p = {"name": (c.get("configured_names") or [])[i] if i < len(c.get("configured_names") or []) else f"peer{i + 1}.example",
              "ip": [f"10.1.1.{i + 1}"]}
+        if c.get("default_peers"):
+            p["default"] = True
         if i == 0:
             p["timers"] = dict(c["ptimers"])
             if direction == "out":
